@@ -151,6 +151,13 @@ def rule_table_style(prog, rep, tier):
         raise AnalysisError("TABLE-style: only %d obligations" % n)
 
 
+def enclosing_fn_node(n):
+    p = getattr(n, "_parent", None)
+    while p is not None and not isinstance(p, (ast.FunctionDef, ast.AsyncFunctionDef)):
+        p = getattr(p, "_parent", None)
+    return p
+
+
 def getattr_nt(nt, f):
     return nt.values[nt.fields.index(f)]
 
@@ -284,6 +291,17 @@ def rule_table_argparse(prog, rep, tier):
             for k in c.keywords:
                 if k.arg == "arg" and isinstance(k.value, ast.Constant):
                     kw_w[k.value.value] = c
+                elif k.arg == "arg" and isinstance(k.value, ast.Name):
+                    # keyword(arg=<parameter of a helper>): the constants the helper is called with
+                    f_ = enclosing_fn_node(c)
+                    pn = [a_.arg for a_ in f_.args.args] if f_ is not None else []
+                    if k.value.id in pn:
+                        i = pn.index(k.value.id)
+                        for call in [c_ for nd_ in w_nodes for c_ in ast.walk(nd_)]:
+                            if isinstance(call, ast.Call) and isinstance(call.func, ast.Name) and call.func.id == f_.name:
+                                a_ = call.args[i] if i < len(call.args) else next((k_.value for k_ in call.keywords if k_.arg == k.value.id), None)
+                                if isinstance(a_, ast.Constant) and isinstance(a_.value, str):
+                                    kw_w[a_.value] = call
     kw_r = set()
     for c in [c_ for nd_ in r_nodes for c_ in ast.walk(nd_)]:
         if isinstance(c, ast.Compare) and len(c.ops) == 1 and isinstance(c.ops[0], ast.Eq) and isinstance(c.left, ast.Attribute) and c.left.attr == "arg" \
